@@ -120,6 +120,10 @@ def regex_case(draw):
     text = "".join(lines)
     if text and draw(st.integers(0, 3)) == 0:
         text = text[: -len(lines[-1])] + lines[-1].rstrip("\r\n")  # no final newline
+    if text and draw(st.integers(0, 5)) == 0:
+        # a file saved with a UTF-8 byte order mark: the mark is part of line 1 and must survive like any other text
+        text = "\ufeff" + text
+        lines[0] = "\ufeff" + lines[0]
     pat, repl = draw(st.sampled_from(PATTERNS))
     nl = max(1, n)
     matching = [i for i, l in enumerate(lines, 1) if re.search(pat, l)] or [1]
@@ -167,7 +171,7 @@ def eval_regex(case, stats=None):
     text, pat, repl, sast = case["text"], case["pattern"], case["replacement"], case["sast"]
     findings = case["findings"]
     exotic = any(c in text for c in ("\x0c", " ", " ", "\x85", "\x1c", "\x1d", "\x1e", "\x0b")) or re.search(r"\r(?!\n)", text) is not None
-    feats = (["sast"] if sast else ["plain"]) + (["exotic-separator"] if exotic else [])
+    feats = (["sast"] if sast else ["plain"]) + (["exotic-separator"] if exotic else []) + (["bom"] if text.startswith("\ufeff") else [])
     data = text.encode("utf-8")
     if case["undecodable"]:
         data = data + b"\xff\xfe bad \x80\n"
